@@ -27,6 +27,11 @@ pub struct ChildSpec {
     pub cpu_budget_s: f64,
 }
 
+/// Set by a case that left the process in a state no further case should run in (e.g. stuck
+/// threads after a detected deadlock): the child exits right after reporting the case and the
+/// parent restarts the shard in a fresh process.
+pub static EXIT_AFTER_CASE: std::sync::atomic::AtomicBool = std::sync::atomic::AtomicBool::new(false);
+
 pub fn child_spec() -> Option<ChildSpec> {
     let v = std::env::var("VMON_CHILD").ok()?;
     let p: Vec<&str> = v.split(':').collect();
@@ -98,6 +103,9 @@ pub fn child_loop(spec: &ChildSpec, mut f: impl FnMut(u64) -> Value) -> ! {
             let _ = writeln!(o, "E {idx} {}", serde_json::to_string(&v).unwrap());
             let _ = o.flush();
         }
+        if EXIT_AFTER_CASE.load(Ordering::SeqCst) {
+            unsafe { libc::_exit(0) }
+        }
         idx += spec.of;
     }
     std::process::exit(0)
@@ -158,7 +166,12 @@ pub fn run_children(
                     };
                     let mut open: Option<u64> = None;
                     let mut hung: Option<(u64, f64)> = None;
-                    let mut next_start = total; // if the child ends cleanly we are done
+                    // next case of this shard after the last one that was closed (E), hung or aborted
+                    let mut next_start = start;
+                    while next_start % shards != shard {
+                        next_start += 1;
+                    }
+                    let mut progressed = false;
                     for line in BufReader::new(stdout).lines() {
                         let Ok(line) = line else { break };
                         *last_activity.lock().unwrap() = Instant::now();
@@ -168,6 +181,8 @@ pub fn run_children(
                             (Some("E"), Some(i), Some(js)) => {
                                 let i: u64 = i.parse().unwrap_or(u64::MAX);
                                 open = None;
+                                next_start = i.saturating_add(shards);
+                                progressed = true;
                                 let v = serde_json::from_str(js).unwrap_or(Value::Null);
                                 let _g = lock.lock().unwrap();
                                 sink(Outcome::Done(i, v));
@@ -186,6 +201,7 @@ pub fn run_children(
                         let _g = lock.lock().unwrap();
                         sink(Outcome::Hang(i, cpu));
                         next_start = i + shards;
+                        progressed = true;
                     } else if let Some(i) = open {
                         let _g = lock.lock().unwrap();
                         if wall_fired {
@@ -206,6 +222,12 @@ pub fn run_children(
                             sink(Outcome::Abort(i, format!("{st}; stderr tail: {tail}")));
                         }
                         next_start = i + shards;
+                        progressed = true;
+                    }
+                    if !progressed {
+                        // the child ended without touching a single case (normal end of an empty
+                        // remainder, or it could not even start): never loop on that
+                        break;
                     }
                     start = next_start;
                 }
